@@ -1,6 +1,7 @@
 SPEC = {
-    "lean_modules": ["AM.Props.C08"],
+    "lean_modules": ["AM.Props.C06", "AM.Props.C08"],
     "theorems": [
+        "AM.Route.route_key_spec",
         "AM.Cluster.sound_init", "AM.Cluster.sound_step", "AM.Cluster.sound_run",
         "AM.Cluster.entry_implies_sent", "AM.Cluster.at_least_once",
         "AM.Cluster.sent_congr", "AM.Cluster.slot_congr", "AM.Cluster.deliver_sets_slot", "AM.Cluster.healthy_step_refines",
@@ -13,6 +14,8 @@ SPEC = {
         # cluster wait breaks the healthy case); the log entries travel through the gossip layer of C19
         {"name": "sys", "pkg": "./sys", "timeout_quick": 90, "search_cases": 6000, "quick_cases": 300},
         {"name": "gossip", "pkg": "./gossip", "search_cases": 6000, "quick_cases": 600},
+        # the group key is the key of the replicated log: every instance must derive the same one from the same configuration (C07's engine)
+        {"name": "route", "pkg": "./route", "search_cases": 20000, "quick_cases": 2500, "only": ["route_key_spec"]},
     ],
     "rule": "1-3 REAL pipelines (PipelineBuilder.New incl. the real ClusterWaitStage, wait = position x 15 s, every assignment of positions) each on its own real "
             "nflog.Log, joined by a scripted gossip channel (per-link delay below / above the peer timeout, loss, late re-delivery of everything ever broadcast), "
